@@ -18,8 +18,9 @@ ASSUMPTIONS = [
     "BackgroundService.__del__ (cancel at garbage collection) is outside the schedules",
     "cancel_and_await(task) is modelled as stop() of the anonymous singleton set {task} (done task: immediate return); `await task` "
     "resumes only when the task is done and re-raises its exception; the caller itself is not cancelled meanwhile",
-    "`async with service:` is __aenter__ = start(), __aexit__ = stop() whatever the body did (normal exit, exception, cancellation); "
-    "a second cancellation of the task executing __aexit__ is outside the schedules",
+    "`async with service:` is __aenter__ = start(), __aexit__ = stop() whatever the body did (normal exit, exception, cancellation)",
+    "a cancelled / timed-out awaiter of wait()/stop()/`async with` exit: asyncio throws CancelledError at the call's current await "
+    "(asyncio.wait), which leaves _tasks untouched; asyncio.timeout turns it into TimeoutError; modelled as GCallCancelled",
     "the restart-limit default (None) is not translatable by the T-tie (value None): it is tied by correspondence only",
 ]
 
@@ -119,6 +120,29 @@ class C10Stream(A.ActorStream):
         # ---- stop() / wait()
         created_after = lambda idx, a: {e[3] for e in log[idx:] if (e[1] == "add" or (e[1] == "start" and e[4])) and e[2] == a}
         rets = {e[2]: (i, e) for i, e in enumerate(log) if e[1] == "ret"}
+        aborted = {e[2]: (i, e) for i, e in enumerate(log) if e[1] == "abort"}     # the call raised CancelledError
+        # ---- a cancelled / timed-out awaiter: the call may RAISE at any time but may RETURN only when the tasks are done,
+        #      and the awaiter must see its CancelledError / TimeoutError
+        for e in log:
+            if e[1] != "opdone":
+                continue
+            wid, kind, how, fired, spec = e[2], e[3], e[4], e[5], e[7]
+            began = next((i for i, x in enumerate(log) if x[1] in ("stopcall", "waitcall") and x[3] == wid), None)
+            fire_i = next((i for i, x in enumerate(log) if x[1] == "awcancel" and x[2] == wid), None)
+            end_i = rets[wid][0] if wid in rets else (aborted[wid][0] if wid in aborted else None)
+            if fired and began is not None and fire_i is not None and began < fire_i and (end_i is None or end_i > fire_i):
+                # the awaiter was cancelled while the call was blocked
+                if wid in rets:
+                    V(f"awaiter: the task awaiting {kind}() on actor {log[began][2]} was cancelled while the call was blocked, but "
+                      f"{kind}() returned ({'normally' if rets[wid][1][3] == 'ok' else 'an error group'}) with tasks done="
+                      f"{rets[wid][1][4]} and the awaiter finished as '{how}' instead of seeing CancelledError")
+                elif how != "cancelled":
+                    V(f"awaiter: the cancelled awaiter of {kind}() finished as '{how}', not with CancelledError")
+            if how == "timeout" and wid not in aborted and began is not None:
+                V(f"awaiter: {kind}() under asyncio.timeout raised TimeoutError although the call was not interrupted")
+            if "timeout" in spec and wid in rets and rets[wid][1][0] > e[6] + spec["timeout"] * 1000:
+                V(f"awaiter: {kind}() under asyncio.timeout({spec['timeout']}ms) returned at t={rets[wid][1][0]}us, after the "
+                  f"deadline t={e[6] + spec['timeout'] * 1000}us: the timeout was lost")
         for i, e in enumerate(log):
             if e[1] not in ("stopcall", "waitcall"):
                 continue
@@ -129,7 +153,7 @@ class C10Stream(A.ActorStream):
             if is_stop and sorted(e[5]) != sorted(e[4]):
                 V(f"stop: stop() of actor {a} cancelled tasks {e[5]}, its unfinished tasks were {e[4]}")
             if wid not in rets:
-                if not obs["hung"]:
+                if not obs["hung"] and wid not in aborted:
                     V(f"{name}: call {wid} on actor {a} never returned")
                 continue
             j, r = rets[wid]
@@ -182,6 +206,11 @@ class C10Stream(A.ActorStream):
             if e[1] != "withdone":
                 continue
             a, set0, flags, raised, how = e[2], e[3], e[4], e[5], e[6]
+            if e[8]:        # the task executing __aexit__ was cancelled meanwhile: it must see CancelledError
+                if how != "cancelled":
+                    V(f"async-with: the task leaving the `async with` block of actor {a} was cancelled during the exit but the "
+                      f"statement ended as '{how}' (tasks done={flags}) instead of raising CancelledError")
+                continue
             if not all(flags):
                 V(f"async-with: the `async with` block of actor {a} (body: {e[7]}) was left while tasks "
                   f"{[t for t, d in zip(set0, flags) if not d]} of the service were still running")
